@@ -27,15 +27,16 @@ var (
 	tBinary  = ftype{name: "binary", idl: "binary"}
 	tListI32 = ftype{name: "list_i32", idl: "list<i32>", complex: true}
 	tListStr = ftype{name: "list_string", idl: "list<string>", complex: true}
+	tListBin = ftype{name: "list_binary", idl: "list<binary>", complex: true}
 	tMapSS   = ftype{name: "map_string_string", idl: "map<string,string>", complex: true, quoted: true}
 	tStruct  = ftype{name: "struct", idl: "Leaf", complex: true, quoted: true}
 )
 
 func typesFor(tier string) []ftype {
 	if tier == "thorough" {
-		return []ftype{tString, tI32, tI64, tDouble, tBinary, tListI32, tListStr, tMapSS, tStruct}
+		return []ftype{tString, tI32, tI64, tDouble, tBinary, tListI32, tListStr, tListBin, tMapSS, tStruct}
 	}
-	return []ftype{tString, tI32, tBinary, tListI32, tMapSS, tStruct}
+	return []ftype{tString, tI32, tBinary, tListI32, tListBin, tMapSS, tStruct}
 }
 
 // slot numbers: every place a value can come from carries a different value
@@ -48,6 +49,7 @@ const (
 	slotBody   = 6 // api.body (member "bk" of the body map)
 	slotMember = 7 // the JSON body member of the field itself (fallback)
 	slotOwnKey = 8 // query parameter under the field's own key (traceback)
+	slotDecoy  = 9 // a value offered under a listed key but in ANOTHER kind of source (must never be taken)
 )
 
 var slotOf = map[httpref.Source]int{httpref.Query: slotQuery, httpref.Path: slotPath, httpref.Header: slotHeader, httpref.Cookie: slotCookie, httpref.Form: slotForm, httpref.Body: slotBody}
@@ -94,6 +96,18 @@ func slotValue(t ftype, n int, jsonSpelling bool, noBase64 bool) (v *tbin.Val, t
 			return v, js, js
 		}
 		return v, a + "," + b, js
+	case "list_binary":
+		ra, rb := []byte{byte(n), 0xff, 'a'}, []byte{byte(n), 0x00, 'b', 'c'}
+		a, b := base64.StdEncoding.EncodeToString(ra), base64.StdEncoding.EncodeToString(rb)
+		v := tbin.List(tbin.STRING, tbin.Bin(ra), tbin.Bin(rb))
+		if noBase64 {
+			v = tbin.List(tbin.STRING, tbin.Bin([]byte(a)), tbin.Bin([]byte(b)))
+		}
+		js := fmt.Sprintf("[%q,%q]", a, b)
+		if jsonSpelling {
+			return v, js, js
+		}
+		return v, a + "," + b, js
 	case "map_string_string":
 		val := fmt.Sprintf("v%d", n)
 		v := tbin.Map(tbin.STRING, tbin.STRING, tbin.Str("k"), tbin.Str(val))
@@ -122,7 +136,7 @@ func zeroValue(t ftype) *tbin.Val {
 		return tbin.Bool(false)
 	case "list_i32":
 		return tbin.List(tbin.I32)
-	case "list_string":
+	case "list_string", "list_binary":
 		return tbin.List(tbin.STRING)
 	case "map_string_string":
 		return tbin.Map(tbin.STRING, tbin.STRING)
